@@ -124,6 +124,7 @@ var srcTargets = []srcTarget{
 	{Group: "DecodeV1", Name: "parseHeaders", Only: "V1"},
 	{Group: "DecodeV1", Name: "parseClaims", Only: "V1"},
 	{Group: "DecodeV1", Name: "Decode", Only: "V1"},
+	{Group: "DecodeV1", Name: "DecodeGeneric", Only: "V1"},
 	{Group: "Codec", Recv: "OperatorClaims", Name: "updateVersion", Only: "V2"},
 	{Group: "Codec", Recv: "AccountClaims", Name: "updateVersion", Only: "V2"},
 	{Group: "Codec", Recv: "UserClaims", Name: "updateVersion", Only: "V2"},
